@@ -468,18 +468,25 @@ def oracle_c18(h):
     against the ground truth read from the fake datastore just before the call."""
     res = []
     registered = {}      # backend ID -> the prefixes the administrator registered (the store must hold exactly these)
+    reg_user = {}        # backend ID -> the end user it was registered for ("allUsers" = shared)
     for row in h:
         op, obs = row["op"], row["obs"]
         if op["op"] == "add" and obs.get("status") == 200 and not op.get("faults"):
             registered[op["id"]] = list(op.get("prefixes") or [])
+            reg_user[op["id"]] = op.get("euser")
         if op["op"] == "delete" and obs.get("status") == 200:
             registered.pop(op.get("id"), None)
+            reg_user.pop(op.get("id"), None)
         if op["op"] == "ustart" and "gt_backends" in obs:
             for b in obs["gt_backends"]:
                 if b["id"] in registered and list(b["prefixes"]) != registered[b["id"]]:
                     res.append(("registered-prefixes-altered", "backend %r was registered with path prefixes %s, the store holds %s" % (b["id"], registered[b["id"]], b["prefixes"]),
                                 dict(_base(h, row), backend=b["id"], registered=registered[b["id"]], stored=b["prefixes"])))
                     registered.pop(b["id"])   # once per registration
+                if b["id"] in reg_user and reg_user[b["id"]] is not None and b.get("euser") != reg_user[b["id"]]:
+                    res.append(("registered-end-user-altered", "backend %r was registered for end user %r, the store holds %r (the shared tier is the backends whose end user is exactly \"allUsers\")" % (
+                        b["id"], reg_user[b["id"]], b.get("euser")), dict(_base(h, row), backend=b["id"], registered_for=reg_user[b["id"]], stored=b.get("euser"))))
+                    reg_user.pop(b["id"])
         if op["op"] == "alist" and obs.get("status") in (200, -1) and "put_tracker" not in (op.get("faults") or []):
             # the liveness window is counted from the agent's last poll
             age = obs.get("tracker_age_after_s", 0)
